@@ -382,7 +382,14 @@ class _rewrite_captured_vars(ast.NodeTransformer):
                 # helper was defined - not where it is used.
                 # A default value was computed when the helper was defined, not now
                 def at_definition(value: Any, written: ast.expr) -> ast.expr:
-                    return as_literal(value) if type(value) in _literal_types else written
+                    if type(value) in _literal_types:
+                        return as_literal(value)
+                    # Any other value python kept for the default (None, a tuple, a list ...)
+                    # is sent the way a captured variable with that value is - unless it is
+                    # something that is called (a further helper), which goes by its name.
+                    if callable(value) or isinstance(value, (type, ModuleType)):
+                        return written
+                    return as_literal(value)
 
                 defaults = getattr(v, "__defaults__", None) or ()
                 if len(defaults) == len(lm.args.defaults):
